@@ -125,11 +125,13 @@ def analyse(ctx, sc, evs, ode, spy, exc, focus, lines, pending):
             ti = sorted(te for (j, te, _) in reported if j == i)
             ctx.oracle("no-duplicate-events", all(b - a > 1e-9 for a, b in zip(ti, ti[1:])), dict(inp, event=i, times=ti), what="event %d reported twice at %s" % (i, ti))
     # ---- C08: completeness against the recorded samples
-    if focus in ("C08", "all"):
+    if focus in ("C08", "C09", "all"):
         last_step_only_partial = terminal_hit
         for i, g in enumerate(evs):
             if g.desc["kind"] == "deriv":
                 continue
+            if focus == "C09" and abs(g.desc["s"]) > 1.0:
+                continue        # steep event functions are C08's known finding
             vals = [g(float(tt), yy) for tt, yy in zip(ode.t, ode.y)]
             for k in range(len(vals) - 1):
                 a, b = vals[k], vals[k + 1]
@@ -169,6 +171,8 @@ def analyse(ctx, sc, evs, ode, spy, exc, focus, lines, pending):
                                    key="event-location-limited-by-cubic-dense-output" if gv <= 0.5 * hmax ** 4 else "last-state-off-event-surface",
                                    what="|h - c| = %.3e at the last recorded state (largest step %.3g)" % (gv, hmax))
                 ctx.oracle("nothing-beyond-the-event", all((te - x) * d >= -1e-12 for x in t), inp, what="samples recorded beyond the terminal event")
+                ctx.oracle("no-event-beyond-the-stop", all((te - x) * d >= -1e-9 for (_, x, _) in reported), dict(inp, events=[(i, x) for i, x, _ in reported], stop=te),
+                           what="an event is reported beyond the terminal event at %r: %s" % (te, [(i, x) for i, x, _ in reported]))
                 ctx.oracle("trajectory-monotone", bool(np.all(np.diff(t) * d > 0)), dict(inp, tail=[float(x) for x in t[-4:]]), what="recorded times not monotone after the terminal stop")
                 if ode.sol is not None:
                     st = [float(x) for x in ode.sol.t_eval]
